@@ -217,6 +217,38 @@ func c14JSONBodies(rng *rand.Rand, g *jgen, body *JS) []string {
 					}
 					out = append(out, marshalDoc(cp, rng))
 				}
+				// the fewest keys the schema admits, alone and next to undeclared ones (fewer keys than declared properties,
+				// yet some of them undeclared); weighted, because the list is long and one body is drawn per request
+				req := map[string]bool{}
+				var walk func(x *JS)
+				walk = func(x *JS) {
+					for _, m := range x.Members {
+						if m.Embed {
+							walk(m.S)
+						} else if m.Req {
+							req[m.Name] = true
+						}
+					}
+				}
+				walk(body)
+				min := map[string]interface{}{}
+				for k2, v := range d {
+					if req[k2] {
+						min[k2] = v
+					}
+				}
+				for _, extra := range [][]string{{}, {"zzUndeclared"}, {"zzUndeclared", "zzOther"}} {
+					cp := map[string]interface{}{}
+					for k2, v := range min {
+						cp[k2] = v
+					}
+					for n, e := range extra {
+						cp[e] = []interface{}{1, "s", true}[(k+n)%3]
+					}
+					for w := 0; w < 6; w++ {
+						out = append(out, marshalDoc(cp, rng))
+					}
+				}
 				// truncations
 				for _, cut := range []int{1, len(txt) / 3, len(txt) / 2, len(txt) - 1} {
 					if cut > 0 && cut < len(txt) {
